@@ -582,6 +582,98 @@ def gen_solhandler(tree):
     return out
 
 
+
+def gen_walks(tree):
+    """the CSR row walk `pos_end = nnz; for (i = rows; i--;) { for (pos = start[i]; pos != pos_end; ++pos) BODY; pos_end = start[i]; }`
+    that four functions share: its five integer components, per function"""
+    out = ''
+    shapes = []
+    for fn, flt, cls in (('FillNonlinearVars', 'NLFeeder_Easy', None), ('FillObjNonzeros', 'NLFeeder_Easy', None),
+                         ('FeedObjExpression', 'NLFeeder_Easy', None), ('ComputeObjValue', 'ComputeObjValue', None)):
+        d, body, _ = tree.body('nl-writer2/src/nl-solver.cc', flt, fn)
+        decls = find_all(body, lambda n: n.get('kind') == 'VarDecl' and n.get('name') == 'pos_end')
+        if len(decls) != 1:
+            raise TranslateError('%s: expected one pos_end, found %d' % (fn, len(decls)))
+        init0 = [c for c in decls[0].get('inner', []) if isinstance(c, dict) and 'kind' in c][-1]
+        qname = R(init0).split('.')[0]           # Q or Q_
+        outers = [f for f in find_all(body, lambda n: n.get('kind') == 'ForStmt')
+                  if any(c.get('kind') == 'ForStmt' for c in (f['inner'][-1].get('inner', []) if f['inner'][-1].get('kind') == 'CompoundStmt' else []))]
+        if len(outers) != 1:
+            raise TranslateError('%s: expected one nested loop, found %d' % (fn, len(outers)))
+        outer = outers[0]
+        obody = outer['inner'][-1]['inner']
+        if len(obody) != 2 or obody[0].get('kind') != 'ForStmt':
+            raise TranslateError('%s: body of the row loop is not {inner loop; pos_end = ...}' % fn)
+        inner, upd = obody
+        upd = strip(upd)
+        if upd.get('kind') != 'BinaryOperator' or upd.get('opcode') != '=' or R(upd['inner'][0]) != 'pos_end':
+            raise TranslateError('%s: statement after the inner loop is %s' % (fn, R(upd)))
+        iinit, _, icond, iinc, _ = inner['inner']
+        ivd = iinit['inner'][0]
+        if ivd.get('name') != 'pos':
+            raise TranslateError('%s: inner loop variable is %s' % (fn, ivd.get('name')))
+        iinit_e = [c for c in ivd.get('inner', []) if isinstance(c, dict) and 'kind' in c][-1]
+        leaves = {qname + '.num_nz_': ('numNz', 'Int'), qname + '.start_[i]': ('startI', 'Int'), 'pos': ('pos', 'Int'), 'pos_end': ('posEnd', 'Int')}
+        iinc_s = strip(iinc)
+        if iinc_s.get('kind') != 'UnaryOperator' or iinc_s.get('opcode') != '++' or R(iinc_s['inner'][0]) != 'pos':
+            raise TranslateError('%s: inner increment is %s' % (fn, R(iinc)))
+        oinit, _, ocond, oinc, _ = outer['inner']
+        ohead = 'for (%s ; %s ; %s)' % (' , '.join(S(oinit)), R(ocond) if ocond else '', R(oinc) if oinc else '')
+        ohead = ohead.replace('NLME().', '')
+        if ohead != 'for (decl i := NumCols() ; (i)-- ; )':
+            raise TranslateError('%s: row loop header %r' % (fn, ohead))
+        out += '/-- components of the CSR row walk of `%s` -/\n' % fn
+        out += 'def walk_%s_posEnd0 (numNz : Int) : Int := %s\n' % (fn, Sem(leaves).E(init0, 'Int')[0])
+        out += 'def walk_%s_init (startI : Int) : Int := %s\n' % (fn, Sem(leaves).E(iinit_e, 'Int')[0])
+        out += 'def walk_%s_cond (pos posEnd : Int) : Bool := %s\n' % (fn, Sem(leaves).E(icond, 'Bool')[0])
+        out += 'def walk_%s_inc (pos : Int) : Int := (pos + 1)\n' % fn
+        out += 'def walk_%s_next (startI : Int) : Int := %s\n\n' % (fn, Sem(leaves).E(upd['inner'][1], 'Int')[0])
+        shapes.append(fn)
+    out += 'def walk_functions : List String := [%s]\n' % ', '.join(lean_str(x) for x in shapes)
+    return out
+
+
+def gen_revmap(tree):
+    """the reverse-mapping loop of PermuteVars and the accessors VPerm / VPermInv"""
+    d, body, _ = tree.body('nl-writer2/src/nl-solver.cc', 'NLFeeder_Easy', 'PermuteVars')
+    fors = [c for c in body['inner'] if c.get('kind') == 'ForStmt']
+    loop = fors[1]
+    head = S(loop)[0].split('{')[0].strip()
+    if head != 'for (decl i := var_perm_.size() ; (i)-- ; )':
+        raise TranslateError('PermuteVars: reverse-mapping loop header %r' % head)
+    stmts = [c for c in (loop['inner'][-1].get('inner', []) if loop['inner'][-1].get('kind') == 'CompoundStmt' else [loop['inner'][-1]])]
+    if len(stmts) != 1:
+        raise TranslateError('PermuteVars: reverse-mapping loop has %d statements' % len(stmts))
+    st = strip(stmts[0])
+    if st.get('kind') != 'BinaryOperator' or st.get('opcode') != '=':
+        raise TranslateError('PermuteVars: reverse-mapping statement is %s' % R(st))
+    lhs = strip(st['inner'][0])
+    if lhs.get('kind') != 'MemberExpr':
+        raise TranslateError('PermuteVars: reverse-mapping target is %s' % R(lhs))
+    arr = strip(lhs['inner'][0])
+    if arr.get('kind') != 'CXXOperatorCallExpr' or callee_name(arr['inner'][0]) != 'operator[]' or R(arr['inner'][1]) != 'var_perm_':
+        raise TranslateError('PermuteVars: reverse-mapping target is %s' % R(lhs))
+    s1 = Sem({'var_perm_[i].second': ('secondAtI', 'Int'), 'var_perm_[i].first': ('firstAtI', 'Int'), 'i': ('i', 'Int')})
+    tidx = s1.E(arr['inner'][2], 'Int')[0]
+    s2 = Sem({'var_perm_[i].second': ('secondAtI', 'Int'), 'var_perm_[i].first': ('firstAtI', 'Int'), 'i': ('i', 'Int')})
+    tval = s2.E(st['inner'][1], 'Int')[0]
+    out = ('/-- reverse-mapping loop of `PermuteVars`: `var_perm_[<revMapTarget>].<revMap_field> = <revMapValue>` for `i` descending -/\n'
+           'def revMapTarget (firstAtI secondAtI i : Int) : Int := %s\n'
+           'def revMapValue (firstAtI secondAtI i : Int) : Int := %s\n'
+           'def revMap_field : String := %s\n'
+           'def revMap_header : String := %s\n' % (tidx, tval, lean_str(lhs['name']), lean_str(head)))
+    for acc in ('VPerm', 'VPermInv'):
+        d, b, rend = tree.body('nl-writer2/src/nl-solver.cc', 'NLFeeder_Easy', acc)
+        rets = find_all(b, lambda n: n.get('kind') == 'ReturnStmt')
+        if len(rets) != 1:
+            raise TranslateError('%s: not a single return' % acc)
+        e = strip(rets[0]['inner'][0])
+        if e.get('kind') != 'MemberExpr' or R(e['inner'][0]) != 'var_perm_[i]':
+            raise TranslateError('%s returns %s' % (acc, R(e)))
+        out += 'def %s_field : String := %s\n' % (acc, lean_str(e['name']))
+    return out
+
+
 SKELS = [  # (lean name, source file, dump filter, function name, signature substring or None)
     ('FeedObjGradient', 'nl-writer2/src/nl-solver.cc', 'NLFeeder_Easy', 'FeedObjGradient', None),
     ('FeedObjExpression', 'nl-writer2/src/nl-solver.cc', 'NLFeeder_Easy', 'FeedObjExpression', None),
@@ -626,7 +718,7 @@ def main(repo, out, work):
          'namespace MpVerif.Gen.C08Easy',
          'open MpVerif.C08',
          '',
-         gen_permute_step(tree), gen_objvalue(tree), gen_solhandler(tree)]
+         gen_permute_step(tree), gen_objvalue(tree), gen_solhandler(tree), gen_walks(tree), gen_revmap(tree)]
     names = []
     for lean, src, flt, fn, sig in SKELS:
         _, _, rend = tree.body(src, flt, fn, None, sig)
@@ -639,7 +731,7 @@ def main(repo, out, work):
     old = open(out).read() if os.path.exists(out) else None
     if old != text:
         open(out, 'w').write(text)
-    print('generated 12 semantic defs, %d skeletons -> %s%s' % (len(names), out, '' if old != text else ' (unchanged)'))
+    print('generated 36 semantic defs, %d skeletons -> %s%s' % (len(names), out, '' if old != text else ' (unchanged)'))
 
 
 if __name__ == '__main__':
